@@ -177,7 +177,7 @@ def main(tier):
     with open(path, "w") as f:
         json.dump({"cases": cases}, f)
     try:
-        r = tlc.run("gen/Gen_Pooling.tla", tlc.make_cfg(invariants=["Laws", "Emit"]), env={"POOL_INPUT": path}, workers=16, coverage=True, timeout=6000)
+        r = tlc.run("gen/Gen_Pooling.tla", tlc.make_cfg(invariants=["Laws", "Emit"]), env={"POOL_INPUT": path}, workers=16, coverage=False, timeout=6000)
     finally:
         os.remove(path)
     chk.add_tlc(r, vacuity_actions=("Pick",))
